@@ -189,6 +189,8 @@ _async_auth_glock = asyncio.Lock()
 _async_auth_locks = weakref.WeakKeyDictionary()
 _sync_auth_glock = threading.Lock()
 _sync_auth_locks = weakref.WeakKeyDictionary()
+# How many times a single call may refresh the authorization before giving up
+MAX_REAUTH_ATTEMPTS = 3
 
 
 def requires_auth(func):
@@ -216,17 +218,19 @@ def requires_auth(func):
                     async with lock:
                         pass
 
-            try:
-                return await func(self, *a, **ka)
-            except exceptions.AuthRequired:
-                if not self._async_auth_lock.locked():
-                    async with self._async_auth_lock:
-                        await self.authenticate()
-                else:
-                    async with self._async_auth_lock:
-                        pass
+            for _ in range(MAX_REAUTH_ATTEMPTS):
+                try:
+                    return await func(self, *a, **ka)
+                except exceptions.AuthRequired:
+                    if not self._async_auth_lock.locked():
+                        async with self._async_auth_lock:
+                            await self.authenticate()
+                    else:
+                        async with self._async_auth_lock:
+                            pass
 
-                return await wrapper(self, *a, **ka)
+            # Out of attempts, let AuthRequired propagate
+            return await func(self, *a, **ka)
 
     else:
 
@@ -248,19 +252,21 @@ def requires_auth(func):
                     with lock:
                         pass
 
-            try:
-                return func(self, *a, **ka)
-            except exceptions.AuthRequired:
-                if self._auth_lock.acquire(blocking=False):
-                    try:
-                        self.authenticate()
-                    finally:
-                        self._auth_lock.release()
-                else:
-                    with self._auth_lock:
-                        pass
+            for _ in range(MAX_REAUTH_ATTEMPTS):
+                try:
+                    return func(self, *a, **ka)
+                except exceptions.AuthRequired:
+                    if self._auth_lock.acquire(blocking=False):
+                        try:
+                            self.authenticate()
+                        finally:
+                            self._auth_lock.release()
+                    else:
+                        with self._auth_lock:
+                            pass
 
-                return wrapper(self, *a, **ka)
+            # Out of attempts, let AuthRequired propagate
+            return func(self, *a, **ka)
 
     wrapper = functools.wraps(func)(wrapper)
     return wrapper
